@@ -110,6 +110,25 @@ func c13Cases() []c13Case {
 				r := c13Recs(3)
 				return db.Session(&gorm.Session{CreateBatchSize: 1}).Create(&r)
 			}},
+		// models defining exactly one hook: it fires once, whatever else the model lacks
+		c13Case{name: "only-before-save", records: names[:1], phases: [][]string{{"BeforeSave"}, {"stmt"}}, valAt: -1, table: "honly1s",
+			run: func(db *gorm.DB) *gorm.DB { return db.Create(&HOnly1{Name: "r1"}) }},
+		c13Case{name: "only-before-create", records: names[:1], phases: [][]string{{"BeforeCreate"}, {"stmt"}}, valAt: -1, table: "honly2s",
+			run: func(db *gorm.DB) *gorm.DB { return db.Create(&HOnly2{Name: "r1"}) }},
+		c13Case{name: "only-after-create", records: names[:1], phases: [][]string{{"stmt"}, {"AfterCreate"}}, valAt: -1, table: "honly3s",
+			run: func(db *gorm.DB) *gorm.DB { return db.Create(&HOnly3{Name: "r1"}) }},
+		c13Case{name: "only-before-update", records: names[:1], phases: [][]string{{"BeforeUpdate"}, {"stmt"}}, valAt: -1, table: "honly4s",
+			run: func(db *gorm.DB) *gorm.DB { return db.Model(&HOnly4{ID: 4, Name: "r1"}).Update("name", "r1") }},
+		c13Case{name: "only-after-update", records: names[:1], phases: [][]string{{"stmt"}, {"AfterUpdate"}}, valAt: -1, table: "honly5s",
+			run: func(db *gorm.DB) *gorm.DB { return db.Model(&HOnly5{ID: 4, Name: "r1"}).Update("name", "r1") }},
+		c13Case{name: "only-after-save", records: names[:1], phases: [][]string{{"stmt"}, {"AfterSave"}}, valAt: -1, table: "honly6s",
+			run: func(db *gorm.DB) *gorm.DB { return db.Model(&HOnly6{ID: 4, Name: "r1"}).Update("name", "r1") }},
+		c13Case{name: "only-before-delete", records: names[:1], phases: [][]string{{"BeforeDelete"}, {"stmt"}}, valAt: -1, table: "honly7s",
+			run: func(db *gorm.DB) *gorm.DB { return db.Delete(&HOnly7{ID: 4, Name: "r1"}) }},
+		c13Case{name: "only-after-delete", records: names[:1], phases: [][]string{{"stmt"}, {"AfterDelete"}}, valAt: -1, table: "honly8s",
+			run: func(db *gorm.DB) *gorm.DB { return db.Delete(&HOnly8{ID: 4, Name: "r1"}) }},
+		c13Case{name: "only-after-find", records: names[:1], phases: [][]string{{"stmt"}, {"AfterFind"}}, valAt: -1, table: "honly9s",
+			run: func(db *gorm.DB) *gorm.DB { var r []HOnly9; return db.Find(&r) }},
 		c13Case{name: "skiphooks-create", records: nil, phases: nil, valAt: -1,
 			run: func(db *gorm.DB) *gorm.DB {
 				r := c13Recs(2)
